@@ -754,6 +754,10 @@ def handle (line : String) : String :=
         if h ma != na || h mb != nb then s!"DIFF parse-unicode model={h ma},{h mb}"
         else if (bit == "T") == (na == nb) then "OK" else "SPEC C15:equalsany-not-by-normalised-type"
       | _ => "BAD eqanyx"
+    | ["hugelim", _lim, _hx] =>
+      match goRes.splitOn " " with
+      | [e, m, d] => if e == "nil" && m == d then "OK" else "SPEC C05:reader-disagrees-with-detect(limit-next-to-2^32) ; SPEC C04:same-bytes-different-answer-through-the-reader"
+      | _ => if goRes == "NOMEM" || goRes == "NOCHILD" then "SKIP no memory for a buffer of that size" else "BAD hugelim"
     | ["bigslice", _lim, _extra, _hx] =>
       match goRes.splitOn " " with
       | [m, d] => if m == d then "OK" else "SPEC C07:only-the-first-limit-bytes-count(4GiB-slice) ; SPEC C05:large-input-header ; SPEC C01:large-input-header"
